@@ -7,18 +7,27 @@ from .ref_jsonpath import is_singular
 
 NAMES_PLAIN = ["a", "b", "c", "d", "ab", "A", "_", "_a", "a1", "x"]
 NAMES_RESERVED = ["and", "or", "not", "in", "true", "false", "null", "nil", "none", "contains", "undefined", "missing", "True", "None", "length", "count"]
-NAMES_DIGITS = ["0", "1", "2", "01", "10", "-1", "+1", " 1", "1_0", "１", "1e0", "0x1", "12345678901234567890", "1\n", "0\n", "\n1", "1 ", "1\r", "-7\n", "1\t", "00", "\u00b2", "\u2460", "\u2082\u2083", "\u0663", "\u00bd"]
+NAMES_DIGITS = ["0", "1", "2", "01", "10", "-1", "+1", " 1", "1_0", "１", "1e0", "0x1", "12345678901234567890", "1\n", "0\n", "\n1", "1 ", "1\r", "-7\n", "1\t", "00", "\u00b2", "\u2460", "\u2082\u2083", "\u0663", "\u00bd",
+                "9007199254740991", "-9007199254740991", "-1000000000000000", "1000000000000000", "-999999999999999", "9007199254740992", "-9007199254740992"]
 NAMES_PUNCT = ["", "~", "/", "~1", "~0", "a/b", "m~n", "#", "#a", "#0", "-", "a-b", "$", "@", "*", ".", "..", "[", "]", "a b", " ", "?", ",", ":", "(", "|", "&", "^"]
 NAMES_QUOTE = ["'", '"', "\\", "a\\", "\\'", '\\"', "a'b", 'a"b', "\\\\", "\\n", "\\u0041", "\\uD83D", "\\uD83D\\uDE00", "x\\udc00", "\\ud800\\n", "\\x41", "\\U0001F600", "\\/", "\\u{41}", "\\u{1F600}", "\\N{BULLET}", "\\8", "\\400"]
 NAMES_CTRL = ["\n", "\t", "\r", "\b", "\f", "\u0000", "\u001f", "\u007f", "a\nb"]
 NAMES_FORMAT = ["%", "%%", "%d", "%s", "100%", "%(a)s", "%%%", "{}", "{0}", "{a}", "{{", "}}", "\\1", "\\g<0>", "${a}", "$1", "%5B", "%27", "&amp;"]
-NAMES_UNI = ["e\u0301", "\u212b", "\u00c5", "A\u030a", "\ufb01", "fi", "\u00e9", "\u263a", "\u65e5\u672c", "\U0001f600", "a\U0001f600", "\u00e9\u00e9", "\u0661", "\ud7ff", "\uffff", "\ue000"]
+NAMES_UNI = ["\u200b", "\u200d", "\ufeff", "\u00ad", "\u202e", "a\u200bb", "\U000e0067", "\U0001f3f4\U000e0067\U000e0062", "\U0001d173", "\U000110bd", "e\u0301", "\u212b", "\u00c5", "A\u030a", "\ufb01", "fi", "\u00e9", "\u263a", "\u65e5\u672c", "\U0001f600", "a\U0001f600", "\u00e9\u00e9", "\u0661", "\ud7ff", "\uffff", "\ue000"]
 NAME_CLASSES = {
     "plain": NAMES_PLAIN, "reserved": NAMES_RESERVED, "digits": NAMES_DIGITS, "punct": NAMES_PUNCT,
     "quote": NAMES_QUOTE, "ctrl": NAMES_CTRL, "unicode": NAMES_UNI, "format": NAMES_FORMAT,
 }
 ALL_NAMES = [n for v in NAME_CLASSES.values() for n in v]
 NAME_CLASS_OF = {n: c for c, v in NAME_CLASSES.items() for n in v}
+
+
+def over_limit(name):
+    """A canonical decimal integer beyond the pointer classes' index limits (+-(2^53-1)): pointer TEXT holding such a
+    token is refused by a documented extension, so clauses that go through pointer text skip such names."""
+    import re as _re
+
+    return isinstance(name, str) and bool(_re.fullmatch(r"-?(?:0|[1-9][0-9]*)", name)) and len(name) < 400 and abs(int(name)) > 2 ** 53 - 1
 
 
 def name_class(n):
